@@ -588,16 +588,399 @@ Proof.
   match type of Eq with try_finalize_commit E height ?x = _ => set (s3 := x) in * end.
   assert (Q : RGood s s3 [] /\ cs_halted s3 = false /\ Rel s s3).
   { subst s3.
-    repeat match goal with |- context [if ?c then _ else _] => destruct c end;
-      (split; [apply rgood_quiet; cs; try reflexivity; try lia; intros _; pose proof (step_rank_range (cs_step s)); cbn; lia
-              | split; [cs; exact Hh|]]);
-      repeat (eapply Rel_trans; [|first [apply rel_set_commit_round | apply rel_set_rs; cs; lia]]);
-      try apply Rel_refl;
-      repeat (first [apply Rel_refl | eapply Rel_trans; [apply rel_set_prop; intros x Hx; first [discriminate | right; left; exact Hx]|]]). }
+    set (h := match polka with Some (h, _) => h | None => 0%N end).
+    set (ph := match polka with Some (_, ph) => ph | None => (0%N, 0%N) end).
+    set (nonnil := match polka with Some _ => true | None => false end).
+    set (s1 := if nonnil && hashes_to (cs_lblock s) h then set_prop (cs_proposal s) (cs_lblock s) (cs_lparts s) s else s).
+    assert (R1 : Rel s s1 /\ Quiet s s1).
+    { subst s1. destruct (nonnil && hashes_to (cs_lblock s) h).
+      - split; [apply rel_set_prop; intros x Hx; right; left; exact Hx | unfold Quiet; cs; repeat split; reflexivity].
+      - split; [apply Rel_refl | apply quiet_refl]. }
+    set (s2 := if negb (nonnil && hashes_to (cs_pblock s1) h)
+               then (if negb (has_header (cs_pparts s1) ph) then set_prop (cs_proposal s1) None (Some (new_parts ph)) s1 else s1)
+               else s1).
+    assert (R2 : Rel s1 s2 /\ Quiet s1 s2).
+    { subst s2. destruct (negb (nonnil && hashes_to (cs_pblock s1) h)); [destruct (negb (has_header (cs_pparts s1) ph))|].
+      - split; [apply rel_set_prop; intros x Hx; discriminate | unfold Quiet; cs; repeat split; reflexivity].
+      - split; [apply Rel_refl | apply quiet_refl].
+      - split; [apply Rel_refl | apply quiet_refl]. }
+    destruct R1 as [R1 (A1 & A2 & A3 & A4 & A5)]. destruct R2 as [R2 (B1 & B2 & B3 & B4 & B5)].
+    split; [|split].
+    - apply rgood_quiet; cs; try congruence; try (rewrite B2, A2; lia);
+        try (intros _; pose proof (step_rank_range (cs_step s)); cbn; lia).
+    - cs. congruence.
+    - eapply Rel_trans; [exact R1|]. eapply Rel_trans; [exact R2|].
+      eapply Rel_trans; [|apply rel_set_commit_round]. apply rel_set_rs. lia. }
   destruct Q as (Q & Hh3 & R3).
   pose proof (full_rel D P SPC s s3 F R3 (rgood_good _ _ _ Q)) as F3.
   pose proof (try_finalize_commit_lk D P SPC height s3 s' o F3 Hh3 Eq) as [A B].
   split; assumption.
 Qed.
 
+
+(* ---------------------------------------------------------------- proposals and parts *)
+
+Lemma full_quiet_rel D P SPC s s' : Full D P SPC s -> Quiet s s' -> Rel s s' -> Full D P SPC s'.
+Proof. intros F Q R. eapply full_rel; [exact F | exact R | apply rgood_good, quiet_rgood; exact Q]. Qed.
+
+Lemma handle_complete_proposal_lk D P SPC height s s' o :
+  Full D P SPC s -> cs_halted s = false -> handle_complete_proposal E height s = (s', o) -> LK D P SPC s s' o.
+Proof.
+  intros F Hh Eq. unfold handle_complete_proposal in Eq.
+  match type of Eq with context [is_proposal_complete ?x] => set (s1 := x) in * end.
+  assert (Q : Quiet s s1 /\ Rel s s1).
+  { subst s1. destruct (o_maj23 (prevotes (cs_votes s) (cs_round s))) as [[[h ph]|]|];
+      try (split; [apply quiet_refl | apply Rel_refl]).
+    destruct ((cs_vround s <? cs_round s) && hashes_to (cs_pblock s) h); [|split; [apply quiet_refl | apply Rel_refl]].
+    split; [unfold Quiet; cs; repeat split; reflexivity | apply rel_set_valid; intros x Hx; left; exact Hx]. }
+  destruct Q as [Q R].
+  assert (Hh1 : cs_halted s1 = false) by (destruct Q as (_ & _ & _ & _ & Q5); rewrite Q5; exact Hh).
+  pose proof (full_quiet_rel D P SPC s s1 F Q R) as F1.
+  assert (Fin : LK D P SPC s1 s' o -> LK D P SPC s s' o).
+  { intros [A B]. split; assumption. }
+  apply Fin.
+  destruct (step_le (cs_step s1) SPropose && is_proposal_complete s1).
+  - eapply (seq_lk D P SPC _ _ s1 s' o (fun _ => True) Eq).
+    + intros s2 o2 E2. destruct (enter_prevote_lk D P SPC height (cs_round s1) s1 s2 o2 F1 Hh1 ltac:(intro; lia) E2) as [L2 _].
+      split; [exact L2 | auto].
+    + intros SPC1 s2 s3 o3 Hh2 _ F2 E3.
+      destruct (o_maj23 (prevotes (cs_votes s) (cs_round s))); [|injection E3 as <- <-; apply lk_nil; exact F2].
+      refine (enter_precommit_lk D P SPC1 _ _ _ _ _ F2 Hh2 _ E3). intro; lia.
+  - destruct (step_eqb (cs_step s1) SCommit).
+    + eapply try_finalize_commit_lk; eassumption.
+    + injection Eq as <- <-. apply lk_nil. exact F1.
+Qed.
+
+Lemma set_proposal_lk D P SPC p s s' o :
+  Full D P SPC s -> set_proposal E p s = (s', o) -> LK D P SPC s s' o.
+Proof.
+  intros F Eq. unfold set_proposal in Eq.
+  assert (Q : (Quiet s s' /\ Rel s s') /\ o = []).
+  { repeat match type of Eq with
+           | context [if ?c then _ else _] => destruct c
+           | context [match ?x with _ => _ end] => destruct x
+           end; injection Eq as <- <-;
+      (split; [split; [unfold Quiet; cs; repeat split; reflexivity
+                      | first [apply Rel_refl | apply rel_set_prop; intros x Hx; left; exact Hx]] | reflexivity]). }
+  destruct Q as [[Q R] ->]. apply lk_nil. eapply full_quiet_rel; eassumption.
+Qed.
+
+Lemma add_part_lk D P SPC height ph idx d s s' o :
+  Full D P SPC s -> cs_halted s = false -> (forall b, d = Some b -> In (b_hash b) P) ->
+  add_part E height ph idx d s = (s', o) -> LK D P SPC s s' o.
+Proof.
+  intros F Hh Hd Eq. unfold add_part in Eq.
+  destruct (negb (cs_height s =? height)); [injection Eq as <- <-; apply lk_nil; exact F|].
+  destruct (cs_pparts s) as [pp|]; [|injection Eq as <- <-; apply lk_nil; exact F].
+  destruct (negb (psh_eqb (pt_header pp) ph)); [injection Eq as <- <-; apply lk_nil; exact F|].
+  destruct ((fst ph <=? idx)%N); [injection Eq as <- <-; apply lk_nil; exact F|].
+  destruct (existsb (N.eqb idx) (pt_have pp)); [injection Eq as <- <-; apply lk_nil; exact F|].
+  match type of Eq with context [pt_complete ?x] => set (pp' := x) in * end.
+  (* the three possible next states are all Full *)
+  assert (Fkeep : Full D P SPC (set_prop (cs_proposal s) (cs_pblock s) (Some pp') s)).
+  { eapply full_quiet_rel; [exact F | unfold Quiet; cs; repeat split; reflexivity | apply rel_set_prop; intros x Hx; left; exact Hx]. }
+  destruct (pt_complete pp').
+  - destruct d as [b|].
+    + assert (Fb : Full D P SPC (set_prop (cs_proposal s) (Some b) (Some pp') s)).
+      { destruct F as ((HI & LI & BI) & AB & SI). split; [|split].
+        - split; [|split].
+          + destruct HI as [H1 H2]. split; cs; assumption.
+          + intros h r b0 Hin Hh0. cs. exact (LI h r b0 Hin Hh0).
+          + intros x [Hx|[Hx|Hx]]; cs; [injection Hx as <-; apply Hd; reflexivity | apply BI; right; left; exact Hx | apply BI; right; right; exact Hx].
+        - intros h r b0 Hin. unfold pos. cs. exact (AB h r b0 Hin).
+        - intros ti Hin. cs. exact (SI ti Hin). }
+      destruct (handle_complete_proposal_lk D P SPC height _ s' o Fb ltac:(cs; exact Hh) Eq) as [A B]; split; assumption.
+    + destruct (handle_complete_proposal_lk D P SPC height _ s' o Fkeep ltac:(cs; exact Hh) Eq) as [A B]; split; assumption.
+  - injection Eq as <- <-. destruct (lk_nil D P SPC _ Fkeep) as [A B]; split; assumption.
+Qed.
+
+(* ---------------------------------------------------------------- votes *)
+
+Lemma polka_update_full D P SPC vr s :
+  Full D P SPC s -> Full D P SPC (polka_update vr s) /\ Quiet s (polka_update vr s).
+Proof.
+  intros F. unfold polka_update.
+  destruct (o_maj23 (prevotes (cs_votes s) vr)) as [polka|] eqn:Maj; [|split; [exact F | apply quiet_refl]].
+  pose proof (polka_from_state D s vr polka (proj1 (proj1 F)) Maj) as Hpol.
+  set (h := match polka with Some (h, _) => h | None => 0%N end).
+  set (nonnil := match polka with Some _ => true | None => false end).
+  (* the unlock step *)
+  set (s_u := match cs_lblock s with
+              | Some _ => if (cs_lround s <? vr) && (vr <=? cs_round s) && negb (nonnil && hashes_to (cs_lblock s) h)
+                          then set_locked (-1) None None s else s
+              | None => s end).
+  assert (Fu : Full D P SPC s_u /\ Quiet s s_u).
+  { subst s_u. destruct (cs_lblock s) as [lb|] eqn:El; [|split; [exact F | apply quiet_refl]].
+    destruct ((cs_lround s <? vr) && (vr <=? cs_round s) && negb (nonnil && hashes_to (Some lb) h)) eqn:Cu; [|split; [exact F | apply quiet_refl]].
+    bool_to_prop.
+    assert (Q : Quiet s (set_locked (-1) None None s)) by (unfold Quiet; cs; repeat split; reflexivity).
+    split; [|exact Q].
+    destruct F as ((HI & LI & BI) & AB & SI). split; [|split].
+    - split; [|split].
+      + destruct HI as [A B]. split; cs; assumption.
+      + intros h0 r b Hin Hh0. cs. right.
+        destruct (LI h0 r b Hin Hh0) as [(lb0 & L1 & L2 & L3)|Rl]; [|exact Rl].
+        rewrite El in L1. injection L1 as <-.
+        exists vr, polka. split; [lia|]. split; [|rewrite Hh0; exact Hpol].
+        rewrite <- L2. subst nonnil h. destruct polka as [[hh pp]|]; cbn; [|discriminate].
+        cbn in H0. destruct H0 as [H0|H0]; [discriminate|]. intro Hc. injection Hc as Hc. apply N.eqb_neq in H0. congruence.
+      + intros x Hx. apply BI. unfold has_block in *. cs. destruct Hx as [Hx|[Hx|Hx]]; try discriminate; auto.
+    - intros h0 r b Hin. unfold pos. cs. exact (AB h0 r b Hin).
+    - intros ti Hin. cs. exact (SI ti Hin). }
+  destruct Fu as [Fu Qu].
+  destruct polka as [[hh ph]|]; [|split; assumption].
+  destruct ((cs_vround s_u <? vr) && (vr =? cs_round s_u)); [|split; assumption].
+  set (s_v := if hashes_to (cs_pblock s_u) hh then set_valid vr (cs_pblock s_u) (cs_pparts s_u) s_u
+              else set_prop (cs_proposal s_u) None (cs_pparts s_u) s_u).
+  assert (Fv : Full D P SPC s_v /\ Quiet s_u s_v).
+  { subst s_v. destruct (hashes_to (cs_pblock s_u) hh).
+    - assert (Q : Quiet s_u (set_valid vr (cs_pblock s_u) (cs_pparts s_u) s_u)) by (unfold Quiet; cs; repeat split; reflexivity).
+      split; [|exact Q]. eapply full_quiet_rel; [exact Fu | exact Q | apply rel_set_valid; intros x Hx; left; exact Hx].
+    - assert (Q : Quiet s_u (set_prop (cs_proposal s_u) None (cs_pparts s_u) s_u)) by (unfold Quiet; cs; repeat split; reflexivity).
+      split; [|exact Q]. eapply full_quiet_rel; [exact Fu | exact Q | apply rel_set_prop; intros x Hx; discriminate]. }
+  destruct Fv as [Fv Qv].
+  assert (Quv : Quiet s s_v).
+  { destruct Qu as (A1 & A2 & A3 & A4 & A5). destruct Qv as (B1 & B2 & B3 & B4 & B5). unfold Quiet. repeat split; congruence. }
+  destruct (negb (has_header (cs_pparts s_v) ph)); [|split; assumption].
+  assert (Q : Quiet s_v (set_prop (cs_proposal s_v) (cs_pblock s_v) (Some (new_parts ph)) s_v)) by (unfold Quiet; cs; repeat split; reflexivity).
+  split.
+  - eapply full_quiet_rel; [exact Fv | exact Q | apply rel_set_prop; intros x Hx; left; exact Hx].
+  - destruct Quv as (A1 & A2 & A3 & A4 & A5). destruct Q as (B1 & B2 & B3 & B4 & B5). unfold Quiet. repeat split; congruence.
+Qed.
+
+Lemma lk_errs D P SPC s s' (e : verr) o :
+  LK D P SPC s s' o -> LK D P SPC s s' ((match e with E_none => [] | _ => [OVoteErr e] end) ++ o).
+Proof.
+  intros [A B]. destruct e; cbn [app]; try (split; assumption);
+    (split; [exact A | cbn [outs_ok opcs]; rewrite app_nil_r; split; [exact I | exact B]]).
+Qed.
+Lemma lk_errs_nil D P SPC s s' (e : verr) :
+  LK D P SPC s s' [] -> LK D P SPC s s' (match e with E_none => [] | _ => [OVoteErr e] end).
+Proof. intro L. rewrite <- (app_nil_r (match e with E_none => [] | _ => [OVoteErr e] end)). apply lk_errs. exact L. Qed.
+
+Lemma full_set_votes D P SPC hv' s :
+  Full D P SPC s -> HVInv D (e_vals E) hv' -> hv_height hv' = cs_height s -> Full D P SPC (set_votes hv' s).
+Proof.
+  intros (C & AB & SI) H1 H2. split; [apply core_set_votes; assumption|]. split.
+  - intros h r b Hin. unfold pos. cs. exact (AB h r b Hin).
+  - intros ti Hin. cs. exact (SI ti Hin).
+Qed.
+
+Lemma add_vote_lk D P SPC v peer s s' o :
+  Full D P SPC s -> cs_halted s = false -> In v D -> add_vote E v peer s = (s', o) -> LK D P SPC s s' o.
+Proof.
+  intros F Hh Hv Eq. unfold add_vote in Eq.
+  destruct ((v_height v + 1 =? cs_height s) && (v_type v =? PRECOMMIT)%N).
+  { destruct (negb (step_eqb (cs_step s) SNewHeight)); [injection Eq as <- <-; apply lk_nil; exact F|].
+    destruct (cs_last_commit s) as [lc|].
+    2:{ pose proof (panic_lk D P SPC 12 s F) as L. rewrite Eq in L. exact L. }
+    destruct (vs_add lc v) as [[lc' added] e].
+    set (s1 := set_last_commit (Some lc') s) in *.
+    assert (Q : Quiet s s1) by (subst s1; unfold Quiet; cs; repeat split; reflexivity).
+    assert (Hh1 : cs_halted s1 = false) by (subst s1; cs; exact Hh).
+    pose proof (full_quiet_rel D P SPC s s1 F Q (rel_set_last_commit _ s)) as F1.
+    destruct (negb added).
+    { injection Eq as <- <-. apply lk_errs_nil. apply lk_nil in F1. destruct F1 as [A B]. split; assumption. }
+    destruct (e_skip_timeout_commit E && has_all lc').
+    - destruct (enter_new_round E (cs_height s1) 0 s1) as [s2 o2] eqn:E2. injection Eq as <- <-.
+      apply lk_errs. destruct (enter_new_round_lk D P SPC _ _ _ _ _ F1 Hh1 E2) as ([A B] & _). split; assumption.
+    - injection Eq as <- <-. apply lk_errs_nil. apply lk_nil in F1. destruct F1 as [A B]. split; assumption. }
+  destruct (negb (v_height v =? cs_height s)); [injection Eq as <- <-; apply lk_nil; exact F|].
+  pose proof (hv_add_vote_inv D (e_vals E) (cs_votes s) v peer Hnn Hv (proj1 (proj1 (proj1 F)))) as [HI' HH'].
+  destruct (hv_add_vote (cs_votes s) v peer) as [[hv' added] e]. cbn [fst] in HI', HH'.
+  set (s1 := set_votes hv' s) in *.
+  assert (F1 : Full D P SPC s1).
+  { apply full_set_votes; [exact F | exact HI' | rewrite HH'; exact (proj2 (proj1 (proj1 F)))]. }
+  assert (Hh1 : cs_halted s1 = false) by (subst s1; cs; exact Hh).
+  assert (Lift : forall s9 o9, LK D P SPC s1 s9 o9 -> LK D P SPC s s9 o9) by (intros s9 o9 [A B]; split; assumption).
+  destruct (negb added).
+  { injection Eq as <- <-. apply lk_errs_nil. apply Lift. apply lk_nil. exact F1. }
+  match type of Eq with (let '(s9, o9) := ?body in _) = _ => destruct body as [s9 o9] eqn:Eb end.
+  injection Eq as <- <-. apply lk_errs. apply Lift.
+  destruct ((v_type v =? PREVOTE)%N).
+  - set (s2 := polka_update (v_round v) s1) in *.
+    destruct (polka_update_full D P SPC (v_round v) s1 F1) as [F2 Q2]. fold s2 in F2, Q2.
+    assert (Hh2 : cs_halted s2 = false) by (destruct Q2 as (_ & _ & _ & _ & Q5); rewrite Q5; exact Hh1).
+    assert (Lift2 : LK D P SPC s2 s9 o9 -> LK D P SPC s1 s9 o9) by (intros [A B]; split; assumption).
+    apply Lift2.
+    destruct ((cs_round s2 <? v_round v) && o_has_any (prevotes (cs_votes s2) (v_round v))).
+    { exact (proj1 (enter_new_round_lk D P SPC _ _ _ _ _ F2 Hh2 Eb)). }
+    destruct ((cs_round s2 =? v_round v) && step_le SPrevote (cs_step s2)) eqn:Cur.
+    { bool_to_prop.
+      assert (Rk : round_ok (cs_height s) (v_round v) s2) by (intro; lia).
+      destruct (o_maj23 (prevotes (cs_votes s2) (v_round v))) as [polka|].
+      - destruct (is_proposal_complete s2 || match polka with None => true | Some _ => false end).
+        + eapply enter_precommit_lk; eassumption.
+        + destruct (o_has_any (prevotes (cs_votes s2) (v_round v))); [|injection Eb as <- <-; apply lk_nil; exact F2].
+          eapply enter_prevote_wait_lk; eassumption.
+      - destruct (o_has_any (prevotes (cs_votes s2) (v_round v))); [|injection Eb as <- <-; apply lk_nil; exact F2].
+        eapply enter_prevote_wait_lk; eassumption. }
+    destruct (cs_proposal s2) as [p|]; [|injection Eb as <- <-; apply lk_nil; exact F2].
+    destruct ((0 <=? pr_polr p) && (pr_polr p =? v_round v) && is_proposal_complete s2); [|injection Eb as <- <-; apply lk_nil; exact F2].
+    refine (proj1 (enter_prevote_lk D P SPC _ _ _ _ _ F2 Hh2 _ Eb)). intro; lia.
+  - destruct (o_maj23 (precommits (cs_votes s1) (v_round v))) as [polka|].
+    + eapply (seq_lk D P SPC _ _ s1 s9 o9 (round_ok (cs_height s) (v_round v)) Eb).
+      * intros sa oa Ea. destruct (enter_new_round_lk D P SPC _ _ _ _ _ F1 Hh1 Ea) as (L & _ & R).
+        split; [exact L | intros _; exact R].
+      * intros SPC1 sa sb ob Hha Ra Fa Eb2.
+        eapply (seq_lk D P SPC1 _ _ sa sb ob (round_ok (cs_height s) (v_round v)) Eb2).
+        -- intros sc oc Ec. pose proof (enter_precommit_lk D P SPC1 _ _ _ _ _ Fa Hha Ra Ec) as L.
+           split; [exact L | intros _].
+           pose proof (enter_precommit_good E _ _ _ _ _ Hha Ra Ec) as G. eapply round_ok_rgood; eassumption.
+        -- intros SPC2 sc sd od Hhc Rc Fc Ed. destruct polka as [bb|].
+           ++ eapply (seq_lk D P SPC2 _ _ sc sd od (fun _ => True) Ed).
+              ** intros se oe Ee. split; [eapply enter_commit_lk; eassumption | auto].
+              ** intros SPC3 se sf of Hhe _ Fe Ef.
+                 destruct (e_skip_timeout_commit E && o_has_all (precommits (cs_votes s1) (v_round v)));
+                   [|injection Ef as <- <-; apply lk_nil; exact Fe].
+                 exact (proj1 (enter_new_round_lk D P SPC3 _ _ _ _ _ Fe Hhe Ef)).
+           ++ eapply enter_precommit_wait_lk; eassumption.
+    + destruct ((cs_round s1 <=? v_round v) && o_has_any (precommits (cs_votes s1) (v_round v))); [|injection Eb as <- <-; apply lk_nil; exact F1].
+      eapply (seq_lk D P SPC _ _ s1 s9 o9 (round_ok (cs_height s) (v_round v)) Eb).
+      * intros sa oa Ea. destruct (enter_new_round_lk D P SPC _ _ _ _ _ F1 Hh1 Ea) as (L & _ & R).
+        split; [exact L | intros _; exact R].
+      * intros SPC1 sa sb ob Hha Ra Fa Eb2. eapply enter_precommit_wait_lk; eassumption.
+Qed.
+
+Lemma handle_timeout_lk D P SPC ti s s' o :
+  Full D P SPC s -> cs_halted s = false -> handle_timeout E ti s = (s', o) -> LK D P SPC s s' o.
+Proof.
+  intros F Hh Eq. unfold handle_timeout in Eq.
+  destruct (negb (existsb (tinfo_eqb ti) (cs_scheduled s))) eqn:Ex; [injection Eq as <- <-; apply lk_nil; exact F|].
+  destruct (negb (ti_height ti =? cs_height s) || (ti_round ti <? cs_round s)
+            || ((ti_round ti =? cs_round s) && (step_rank (ti_step ti) <? step_rank (cs_step s)))) eqn:G;
+    [injection Eq as <- <-; apply lk_nil; exact F|].
+  bool_to_prop.
+  assert (Rk : round_ok (ti_height ti) (ti_round ti) s).
+  { apply existsb_exists in Ex. destruct Ex as (tj & Hin & Et). unfold tinfo_eqb in Et. bool_to_prop.
+    pose proof (proj2 (proj2 F) tj Hin) as SIj. intro. lia. }
+  destruct (ti_step ti).
+  - exact (proj1 (enter_new_round_lk D P SPC _ _ _ _ _ F Hh Eq)).
+  - exact (proj1 (enter_propose_lk D P SPC _ _ _ _ _ F Hh Eq)).
+  - exact (proj1 (enter_prevote_lk D P SPC _ _ _ _ _ F Hh Rk Eq)).
+  - pose proof (panic_lk D P SPC 13 s F) as L. rewrite Eq in L. exact L.
+  - eapply enter_precommit_lk; eassumption.
+  - pose proof (panic_lk D P SPC 13 s F) as L. rewrite Eq in L. exact L.
+  - eapply (seq_lk D P SPC _ _ s s' o (fun _ => True) Eq).
+    + intros s1 o1 E1. split; [eapply enter_precommit_lk; eassumption | auto].
+    + intros SPC1 s1 s2 o2 Hh1 _ F1 E2. exact (proj1 (enter_new_round_lk D P SPC1 _ _ _ _ _ F1 Hh1 E2)).
+  - pose proof (panic_lk D P SPC 13 s F) as L. rewrite Eq in L. exact L.
+Qed.
+
+
+(* ---------------------------------------------------------------- handle and run *)
+
+Definition votes_of (ins : list input) : list vote :=
+  flat_map (fun i => match i with IVote v _ => [v] | _ => [] end) ins.
+Definition blocks_of (ins : list input) : list N :=
+  flat_map (fun i => match i with IPart _ _ _ (Some b) => [b_hash b] | _ => [] end) ins.
+
+Definition input_in (D : list vote) (P : list N) (i : input) : Prop :=
+  match i with
+  | IVote v _ => In v D
+  | IPart _ _ _ (Some b) => In (b_hash b) P
+  | _ => True
+  end.
+
+Lemma handle_lk D P SPC i s s' o :
+  Full D P SPC s -> input_in D P i -> handle E s i = (s', o) -> LK D P SPC s s' o.
+Proof.
+  intros F Hi Eq. unfold handle in Eq.
+  destruct (cs_halted s) eqn:Hh; [injection Eq as <- <-; apply lk_nil; exact F|].
+  destruct i.
+  - eapply set_proposal_lk; eassumption.
+  - eapply add_part_lk; try eassumption. intros b ->. exact Hi.
+  - eapply add_vote_lk; eassumption.
+  - eapply handle_timeout_lk; eassumption.
+Qed.
+
+Lemma run_lk D P : forall ins SPC s s' os,
+  Full D P SPC s -> Forall (input_in D P) ins -> run E s ins = (s', os) ->
+  LK D P SPC s s' (concat os).
+Proof.
+  induction ins as [|i ins IH]; intros SPC s s' os F Hin Eq; cbn [run] in Eq.
+  - injection Eq as <- <-. apply lk_nil. exact F.
+  - destruct (handle E s i) as [s1 o1] eqn:E1. destruct (run E s1 ins) as [s2 os2] eqn:E2.
+    injection Eq as <- <-. cbn [concat]. inversion Hin as [|? ? Hi Hrest]; subst.
+    pose proof (handle_lk D P SPC i s s1 o1 F Hi E1) as L1.
+    eapply lk_trans; [exact L1 | apply (IH _ s1); [apply L1 | exact Hrest | exact E2]].
+Qed.
+
+Lemma init_full D P height lc : Full D P [] (init_state E height lc).
+Proof.
+  split; [split; [|split]|split].
+  - destruct (new_hvs_inv D height (e_vals E)) as [A B]. split; cbn; assumption.
+  - intros h r b [].
+  - intros b [Hb|[Hb|Hb]]; cbn in Hb; discriminate.
+  - intros h r b [].
+  - apply init_sched.
+Qed.
+
+Lemma inputs_in_own ins : Forall (input_in (votes_of ins) (blocks_of ins)) ins.
+Proof.
+  apply Forall_forall. intros i Hi. destruct i as [p|h ph idx [b|]|v peer|ti]; cbn; auto.
+  - unfold blocks_of. apply in_flat_map. exists (IPart h ph idx (Some b)). split; [exact Hi | left; reflexivity].
+  - unfold votes_of. apply in_flat_map. exists (IVote v peer). split; [exact Hi | left; reflexivity].
+Qed.
+
 End Lock.
+
+(* Clauses 2 and 3 for every run: with D the votes and P the completed blocks delivered during
+   the run, every signed output satisfies [outs_ok] in signing order.  Since the input list is
+   arbitrary, applying the theorem to a prefix of a run gives "delivered so far". *)
+Theorem votes_justified E height lc ins :
+  powers_nonneg (e_vals E) ->
+  outs_ok E (votes_of ins) (blocks_of ins) [] (concat (snd (run E (init_state E height lc) ins))).
+Proof.
+  intro Hnn. destruct (run E (init_state E height lc) ins) as [s' os] eqn:Er. cbn [snd].
+  exact (proj2 (run_lk E Hnn _ _ ins [] _ _ _ (init_full E _ _ height lc) (inputs_in_own ins) Er)).
+Qed.
+
+(* readable corollaries *)
+Lemma outs_ok_precommit E D P : forall o SPC h r b,
+  outs_ok E D P SPC o -> In (OSignVote PRECOMMIT h r (Some b)) o ->
+  Polka E D h r (Some b) /\ In (fst b) P.
+Proof.
+  induction o as [|x o IH]; intros SPC h r b Ok Hin; [destruct Hin|].
+  cbn [outs_ok] in Ok. destruct Ok as [Hx Hrest]. destruct Hin as [->|Hin].
+  - destruct Hx as [_ Hpc]. apply Hpc; reflexivity.
+  - eapply IH; eassumption.
+Qed.
+
+Lemma outs_ok_lock E D P : forall o1 SPC h r b o2 r' x o3,
+  outs_ok E D P SPC (o1 ++ OSignVote PRECOMMIT h r (Some b) :: o2 ++ OSignVote PREVOTE h r' x :: o3) ->
+  r < r' -> bhash x <> Some (fst b) -> Released E D h r b r'.
+Proof.
+  intros o1 SPC h r b o2 r' x o3 Ok Hlt Hne.
+  apply outs_ok_app in Ok as [_ Ok]. cbn [outs_ok] in Ok. destruct Ok as [_ Ok].
+  apply outs_ok_app in Ok as [_ Ok]. cbn [outs_ok] in Ok. destruct Ok as [[Hpv _] _].
+  apply (Hpv eq_refl r b); [|exact Hlt | exact Hne].
+  apply in_or_app. left. apply in_or_app. right. cbn. left. reflexivity.
+Qed.
+
+Theorem precommit_justified E height lc ins h r b :
+  powers_nonneg (e_vals E) ->
+  In (OSignVote PRECOMMIT h r (Some b)) (concat (snd (run E (init_state E height lc) ins))) ->
+  Polka E (votes_of ins) h r (Some b) /\ In (fst b) (blocks_of ins).
+Proof. intros Hnn Hin. eapply outs_ok_precommit; [apply votes_justified; exact Hnn | exact Hin]. Qed.
+
+Theorem lock_discipline E height lc ins o1 h r b o2 r' x o3 :
+  powers_nonneg (e_vals E) ->
+  concat (snd (run E (init_state E height lc) ins)) =
+    o1 ++ OSignVote PRECOMMIT h r (Some b) :: o2 ++ OSignVote PREVOTE h r' x :: o3 ->
+  r < r' -> bhash x <> Some (fst b) -> Released E (votes_of ins) h r b r'.
+Proof.
+  intros Hnn Eo. pose proof (votes_justified E height lc ins Hnn) as Ok. rewrite Eo in Ok.
+  eapply outs_ok_lock; exact Ok.
+Qed.
+
+(* a run on a prefix of the inputs is the prefix of the run *)
+Lemma run_app E : forall a s b,
+  snd (run E s (a ++ b)) = snd (run E s a) ++ snd (run E (fst (run E s a)) b).
+Proof.
+  induction a as [|i a IH]; intros s b.
+  - reflexivity.
+  - cbn [run app]. destruct (handle E s i) as [s1 o1]. specialize (IH s1 b).
+    destruct (run E s1 (a ++ b)) as [s2 os2]. destruct (run E s1 a) as [s3 os3]. cbn [fst snd] in *.
+    rewrite IH. reflexivity.
+Qed.
